@@ -1,5 +1,5 @@
 // ---- src/repr/var_label.rs: VarLabel ----
-#[derive(Clone, Copy, PartialEq, Eq, Structural)]
+#[derive(Clone, Copy, PartialEq, Eq, Structural, Debug)]
 //%% extract src/repr/var_label.rs :: - :: struct VarLabel
 //%% @pub
 //%% end
